@@ -1,12 +1,12 @@
 import HranoModel.Lemmas.Walk
 import HranoModel.Lemmas.Merge
+import HranoModel.Lemmas.Append
 /-!
 C12 — reports compose over the log history.
 
 Property theorems only.  A history is a concatenation of event lists (one record per heading);
 nothing here assumes anything about the dates, so repeated dates and reordered days are covered.
-Still open (stated in DESIGN.md): the text-level lemma `parse (t₁ ++ t₂) = parse t₁ ++ shift (parse t₂)`
-and the element-wise statement for the balance tree (needs the path-total lemma of C03).
+Still open (stated in DESIGN.md): the element-wise statement for the printed balance rows.
 -/
 namespace Hrano.C12
 open Hrano Hrano.App Hrano.Spec Hrano.Report
@@ -101,5 +101,32 @@ theorem quantity_additive (a b : List LogDay) (n : Bytes) :
 theorem balance_tree_composes (a b : List LogDay) :
     Tree.build (allElements (a ++ b)) = (allElements b).foldl Tree.addDeep (Tree.build (allElements a)) := by
   simp [Tree.build, allElements_append, List.foldl_append]
+
+/-- the lines the scanner delivers for a text without over-long lines -/
+theorem scan_lines_of_fit (s : Bytes) (h : ∀ l ∈ Scanner.rawLines s, l.length < PConst.maxToken) :
+    (Scanner.scan s none).1 = (Scanner.rawLines s).map Scanner.dropCR := by
+  have := (Scanner.takeFitting_false_iff (Scanner.rawLines s)).mpr h
+  simp [Scanner.scan, Scanner.served, Scanner.takeFitting_false _ this]
+
+/-- **Appending to a log file.**  If the existing text ends with a newline and the appended text starts (after
+    comments and blank lines) with a heading, the parse of the whole is the parse of the existing text followed
+    by the parse of the appended text (error line numbers of the latter shifted by the number of existing
+    lines): appending never changes what was parsed before. -/
+theorem parse_text_concat (cc : UInt8) (u t₂ : Bytes)
+    (hfit : ∀ l ∈ Scanner.rawLines (u ++ 10 :: t₂), l.length < PConst.maxToken)
+    (hh : Parser.HeadFirst cc ((Scanner.rawLines t₂).map Scanner.dropCR)) :
+    Parser.events cc (u ++ 10 :: t₂)
+      = Parser.events cc (u ++ [10]) ++ (Parser.events cc t₂).map (Parser.shiftEvent (Bytes.splitOn 10 u).length) := by
+  have hsplit := Scanner.rawLines_append u t₂
+  have hfit₁ : ∀ l ∈ Scanner.rawLines (u ++ [10]), l.length < PConst.maxToken := by
+    intro l hl
+    rw [Scanner.rawLines_terminated] at hl
+    exact hfit l (by rw [hsplit]; exact List.mem_append_left _ hl)
+  have hfit₂ : ∀ l ∈ Scanner.rawLines t₂, l.length < PConst.maxToken :=
+    fun l hl => hfit l (by rw [hsplit]; exact List.mem_append_right _ hl)
+  unfold Parser.events
+  rw [scan_lines_of_fit _ hfit, scan_lines_of_fit _ hfit₁, scan_lines_of_fit _ hfit₂, hsplit, Scanner.rawLines_terminated,
+    List.map_append, Parser.parse_lines_concat cc _ _ hh]
+  simp
 
 end Hrano.C12
